@@ -28,16 +28,29 @@ def apply_chains(ctx, rule: str):
     ap = ctx.fn(f"{AC}.apply")
     aps = summarize(prog, ap)
     sp = ap.params[0]
-    send_calls = [(n, t) for n, t in aps.ta.terms_at.items() if isinstance(n, ast.Call) and call_is(t, f"{AC}._send_command_get_responses")
-                  and any(call_is(x, f"{CMD}.SetStateCommand") for x in subterms(t))]
+    # (the send itself may sit in a helper apply hands the command to)
+    from ..helpers import ancestor_chains, term_lookup
+    atl = term_lookup(prog, ap)
+
+    def is_state_send(f_, n):
+        t_ = atl(n)
+        return t_ is not None and call_is(t_, f"{AC}._send_command_get_responses") and any(call_is(x, f"{CMD}.SetStateCommand") for x in subterms(t_))
+    sites = ancestor_chains(prog, ap, is_state_send)
+    send_calls = [(n, atl(n), chains) for _f, n, chains in sites]
     ctx.ob(rule, ap.qual, len(send_calls) == 1, "apply sends one SetStateCommand", func=ap.qual, file=ap.module.rel, construct="SetStateCommand send",
            fail=f"apply sends {len(send_calls)} SetStateCommands")
     if send_calls:
-        node, t = send_calls[0]
+        node, t, chains_ = send_calls[0]
         stmt_state = None
         for sn, st in aps.ta.env_at.items():
             if isinstance(sn, ast.stmt) and not isinstance(sn, (ast.If, ast.Try, ast.While, ast.With)) and any(x is node for x in ast.walk(sn)):
                 stmt_state = st
+        if stmt_state is None:
+            # the statement of apply through which the helper is reached
+            for ch in chains_:
+                for x, _fld in ch:
+                    if isinstance(x, ast.stmt) and not isinstance(x, (ast.If, ast.Try, ast.While, ast.With, ast.For, ast.FunctionDef, ast.AsyncFunctionDef)) and x in aps.ta.env_at:
+                        stmt_state = aps.ta.env_at[x]
         cmd_key = None
         for k, v in stmt_state.env.items():
             if "." not in k and call_is(strip(v), f"{CMD}.SetStateCommand"):
